@@ -2,7 +2,8 @@
 # harvest_seed.sh <worktree-name> <seed-id> : verifies an agent's seeded change in its worktree and copies it to /verif/seeded/<seed-id>
 wt=/tmp/wt_$1; id=$2
 cd "$wt" || exit 2
-demo=$(ls seeded_demo/*.sh 2>/dev/null | head -1)
+demo=$(ls seeded_demo/*.sh 2>/dev/null | head -1); runner=bash
+[ -n "$demo" ] || { demo=$(ls seeded_demo/*.py 2>/dev/null | head -1); runner=python3; }
 [ -n "$demo" ] || { echo "no demo script"; exit 2; }
 git diff -- . ':!seeded_demo' > /tmp/harvest_$id.diff
 echo "== diff stat:"; git diff --stat -- . ':!seeded_demo' | tail -3
@@ -10,9 +11,9 @@ if ! diff -q /tmp/harvest_$id.diff seeded_demo/patch.diff >/dev/null 2>&1; then 
 make -j8 >/dev/null 2>&1; make -j8 check >/dev/null 2>&1
 suite=$(grep -E "^# (PASS|FAIL|ERROR)" test-suite.log | tr '\n' ' ')
 echo "== suite with change: $suite"
-timeout 900 bash "$demo" > /tmp/harvest_$id.with.log 2>&1; rc_with=$?
+timeout 900 $runner "$demo" > /tmp/harvest_$id.with.log 2>&1; rc_with=$?
 git apply -R /tmp/harvest_$id.diff && make -j8 >/dev/null 2>&1
-timeout 900 bash "$demo" > /tmp/harvest_$id.without.log 2>&1; rc_without=$?
+timeout 900 $runner "$demo" > /tmp/harvest_$id.without.log 2>&1; rc_without=$?
 git apply /tmp/harvest_$id.diff && make -j8 >/dev/null 2>&1
 echo "== demo with change: rc=$rc_with ; without: rc=$rc_without"
 tail -2 /tmp/harvest_$id.with.log
